@@ -531,3 +531,70 @@ def c05_reader(**p):
         c.oblige("grammar-and-layout", not problems, problems[:3])
         c.oblige("values-strictly-positive", all_(conds) if conds else True)
     return body
+
+
+# ---------------------------------------------------------------------------
+# C01 at reader level: the same molecule listed/numbered/oriented differently in the file
+
+def c01_reader(**p):
+    from harness.pipeline import dom
+
+    def body(c):
+        shadows(c)
+        mol = dom(c, p)
+        n = mol.n
+        blist = sorted(mol.bonds)
+
+        def props(a):
+            out = []
+            if mol.mass[a] is not None:
+                out.append(("MASS", mol.mass[a]))
+            if mol.rad[a] is not None:
+                out.append(("RAD", mol.rad[a]))
+            return out
+        a1 = [A3(a + 1, mol.elements[a], (0.0, 0.0, 0.0), props(a)) for a in range(n)]
+        b1 = [B3(k + 1, 1, a + 1, b + 1) for k, (a, b) in enumerate(blist)]
+        # second file: symbolic distinct indices, a solver-chosen adjacent transposition of the atom lines,
+        # bond lines reversed or rotated, endpoints of all / one bond exchanged
+        idx = [c.int(f"i{a}", lo=1) for a in range(n)]
+        c.assume(distinct(idx))
+        order = list(range(n))
+        if n > 1:
+            t = c.choice("t", n - 1)
+            order[t], order[t + 1] = order[t + 1], order[t]
+        a2 = [A3(idx[a], mol.elements[a], (0.0, 0.0, 0.0), props(a)) for a in order]
+        nb = len(blist)
+        bo = list(range(nb))
+        flip = set()
+        if nb:
+            v = c.choice("bl", 3 if nb > 1 else 1)
+            bo = bo[::-1] if v == 1 else (bo[1:] + bo[:1] if v == 2 else bo)
+            f = c.choice("bo", 3)
+            flip = set(range(nb)) if f == 1 else ({c.choice("bf", nb)} if f == 2 else set())
+        b2 = []
+        for k2, k in enumerate(bo):
+            a, b = blist[k]
+            u, w = (b, a) if k in flip else (a, b)
+            b2.append(B3(k2 + 1, 1, idx[u], idx[w]))
+        t1, t2 = v3000_text(a1, b1), v3000_text(a2, b2)
+        fmt2 = p.get("v2000")
+        if fmt2:
+            # V2000 twin of the second listing (indices are positions there): atom lines permuted, bonds as above
+            pos = {a: i + 1 for i, a in enumerate(order)}
+            al = [v2000_atom_line(mol.elements[a]) for a in order]
+            bl = []
+            for k in bo:
+                a, b = blist[k]
+                u, w = (b, a) if k in flip else (a, b)
+                bl.append(v2000_bond_line(pos[u], pos[w], 1))
+            pl = fixed_lines("RAD", [(pos[a], mol.rad[a]) for a in order if mol.rad[a] is not None]) + fixed_lines("ISO", [(pos[a], mol.mass[a]) for a in order if mol.mass[a] is not None])
+            t2 = v2000_text(al, bl, pl)
+        c.note("mol", mol.describe())
+        c.note("file1", t1)
+        c.note("file2", t2)
+        read = T()["read"]
+        s1, s2 = tucan_of(read(t1)), tucan_of(read(t2))
+        c.note("tucan1", s1)
+        c.note("tucan2", s2)
+        c.oblige("strings-equal", str_eq(s1, s2))
+    return body
